@@ -37,6 +37,9 @@ type c07Replay struct {
 	// "cwd" (no target option, the working directory is the target)
 	TargetForm string `json:"target_form,omitempty"`
 	Bullets    string `json:"bullets,omitempty"` // bullet characters of the Markdown spelling, cycled per line ("" = all '-')
+	// Pre: entries planted in the target before the call (fsx.Populate kinds; 'X' = a dangling symbolic link that
+	// points to a name outside the target, 'L' = a dangling one that points inside, 'l' = a link to a directory outside)
+	Pre map[string]byte `json:"pre,omitempty"`
 }
 
 // options that do not concern Mkdir: names are validated and nothing leaves the target whatever else is passed
@@ -50,12 +53,24 @@ func c07Case(c *rep.Ctx, r c07Replay) {
 	}
 	j := fsx.NewJail("c07")
 	defer j.Remove()
+	if len(r.Pre) > 0 {
+		fsx.Populate(j.Target, r.Pre)
+	}
 	before := fsx.Snapshot(j.Root)
 	opts := []gtree.Option{gtree.WithTargetDir(j.Target)}
 	if len(r.Exts) > 0 {
 		opts = append(opts, gtree.WithFileExtensions(r.Exts))
 	}
+	tprefix := "p/q/target"
 	switch r.TargetForm {
+	case "blank-suffix", "newline-suffix", "blank-prefix", "blanks-only":
+		// a target directory whose name begins or ends with white space (or is nothing else): it is a name like any other
+		name := map[string]string{"blank-suffix": "target ", "newline-suffix": "target\n", "blank-prefix": " target", "blanks-only": "  "}[r.TargetForm]
+		dir := filepath.Join(filepath.Dir(j.Target), name)
+		os.Mkdir(dir, 0o755)
+		before = fsx.Snapshot(j.Root)
+		opts[0] = gtree.WithTargetDir(dir)
+		tprefix = "p/q/" + name
 	case "rel":
 		wd, _ := os.Getwd()
 		os.Chdir(filepath.Dir(j.Target))
@@ -102,7 +117,7 @@ func c07Case(c *rep.Ctx, r c07Replay) {
 		c.Violation("C07|panic|"+r.Route, desc+": "+pan, size, r)
 		return
 	}
-	if d := fsx.Diff(before.Outside("p/q/target"), after.Outside("p/q/target")); d != "" {
+	if d := fsx.Diff(before.Outside(tprefix), after.Outside(tprefix)); d != "" {
 		c.Violation("C07|escaped-target|"+r.Route, fmt.Sprintf("%s: outside the target: %s (err=%v)", desc, d, err), size, r)
 	}
 	invalid := ""
@@ -116,9 +131,9 @@ func c07Case(c *rep.Ctx, r c07Replay) {
 			break
 		}
 	}
-	if invalid == "" && err == nil && !strings.Contains(r.Route, "dry") {
+	if invalid == "" && err == nil && !strings.Contains(r.Route, "dry") && len(r.Pre) == 0 {
 		// a valid tree: it is created inside the target (the first root is there), wherever the process has been before
-		if _, ok := after.Under("p/q/target")[r.Names[0]]; !ok {
+		if _, ok := after.Under(tprefix)[r.Names[0]]; !ok {
 			c.Violation("C07|valid-tree-not-created-in-target|"+r.Route, fmt.Sprintf("%s target form %q: nil but %q is not in the target; changes: %s", desc, r.TargetForm, r.Names[0], fsx.Diff(before, after)), size, r)
 		}
 	}
@@ -128,10 +143,10 @@ func c07Case(c *rep.Ctx, r c07Replay) {
 			kind = "slash"
 		}
 		if err == nil {
-			c.Violation("C07|invalid-name-accepted|"+r.Route+"|"+pos+"|"+kind, fmt.Sprintf("%s: name %q is not a single valid path element but the call returned nil (target now: %s)", desc, invalid, fsx.Diff(before.Under("p/q/target"), after.Under("p/q/target"))), size, r)
+			c.Violation("C07|invalid-name-accepted|"+r.Route+"|"+pos+"|"+kind, fmt.Sprintf("%s: name %q is not a single valid path element but the call returned nil (target now: %s)", desc, invalid, fsx.Diff(before.Under(tprefix), after.Under(tprefix))), size, r)
 		}
 		// (with the massive option valid roots may already exist when the call fails: the statement exempts it)
-		if d := fsx.Diff(before.Under("p/q/target"), after.Under("p/q/target")); d != "" && err != nil && !strings.Contains(r.Extra, "massive") {
+		if d := fsx.Diff(before.Under(tprefix), after.Under(tprefix)); d != "" && err != nil && !strings.Contains(r.Extra, "massive") {
 			c.Violation("C07|created-despite-rejection|"+r.Route+"|"+pos+"|"+kind, fmt.Sprintf("%s: err=%v but the target changed: %s", desc, err, d), size, r)
 		}
 	}
@@ -272,6 +287,176 @@ func init() {
 				}
 			}
 		}
+	}
+	// entries planted in the target under the names the tree is about to use: symbolic links that dangle (pointing outside
+	// the target, or inside it) or lead to a directory outside. Whatever Mkdir makes of them (refuse, fail, replace), it
+	// creates nothing outside the target. Every forest of up to two nodes over a file-like and two plain names, every
+	// subset of the root names planted, every kind of link; simple, massive, From-Root; with and without extensions
+	plantBase := props["C07"]
+	props["C07"] = func(c *rep.Ctx) {
+		plantBase(c)
+		names := []string{"x.go", "d", "e"}
+		for n := 1; n <= 2 && !c.Expired(); n++ {
+			enum.DepthSeqs(n, func(d0 []int) {
+				d := append([]int{}, d0...)
+				enum.Tuples(n, len(names), func(t []int) {
+					nm := enum.Pick(names, t)
+					f := enum.Build(d, nm)
+					if !distinctRoots(f) || !c.Take() || c.Expired() {
+						return
+					}
+					for _, kind := range []byte{'X', 'L', 'l'} {
+						for mask := 1; mask < 1<<len(f); mask++ {
+							pre := map[string]byte{}
+							for i, r := range f {
+								if mask&(1<<i) != 0 {
+									pre[r.Name] = kind
+								}
+							}
+							c.StateN(1)
+							c.Nontrivial()
+							c.Inc("planted_link_cases")
+							for _, ex := range [][]string{{".go"}, nil} {
+								for _, rt := range []string{"md", "root", "md+massive"} {
+									if rt == "root" && len(f) != 1 {
+										continue
+									}
+									base, extra, _ := strings.Cut(rt, "+")
+									c07Case(c, c07Replay{Kind: "c07", Depth: d, Names: nm, Route: base, Exts: ex, Extra: extra, Pre: pre})
+								}
+							}
+						}
+					}
+				})
+			})
+		}
+	}
+	// many roots, one of them planted as a link (to a directory outside, or dangling to the outside): every number of roots
+	// up to the bound, the link at the first, the middle and the last root
+	manyBase := props["C07"]
+	props["C07"] = func(c *rep.Ctx) {
+		manyBase(c)
+		upTo, far := 140, 1030
+		if c.Thorough() {
+			upTo, far = 400, 2100
+		}
+		c.Bound("planted_link_roots_every_integer_up_to", fmt.Sprint(upTo))
+		enum.ManyRootShapes(enum.Sizes(upTo, far), func(sh enum.SizeShape) {
+			if !c.Take() || c.Expired() {
+				return
+			}
+			R := sh.Size
+			for pi, pos := range []int{0, R / 2, R - 1} {
+				if pi > 0 && pos == 0 {
+					continue
+				}
+				kind := []byte{'l', 'X', 'l'}[(R+pi)%3]
+				pre := map[string]byte{fmt.Sprintf("root%04d", pos): kind}
+				c.StateN(1)
+				c.Nontrivial()
+				c.Inc("planted_link_many_roots_cases")
+				extra := ""
+				if (R+pi)%4 == 3 {
+					extra = "massive"
+				}
+				c07Case(c, c07Replay{Kind: "c07", Depth: sh.D, Names: sh.Names, Route: "md", Pre: pre, Extra: extra})
+			}
+		})
+		// a target directory whose own name begins or ends with white space: the tree goes there and nowhere else
+		for _, form := range []string{"blank-suffix", "newline-suffix", "blank-prefix", "blanks-only"} {
+			for _, tr := range []struct {
+				d []int
+				n []string
+			}{{[]int{1, 2}, []string{"a", "b.go"}}, {[]int{1, 1, 2}, []string{"a", "c", "d"}}, {[]int{1, 2}, []string{"a", ".."}}} {
+				if !c.Take() {
+					continue
+				}
+				c.StateN(1)
+				c.Nontrivial()
+				c.Inc("blank_target_cases")
+				for _, rt := range []string{"md", "root", "md+massive", "md-dry-mkdir"} {
+					base, extra, _ := strings.Cut(rt, "+")
+					if base == "root" && len(tr.d) == 3 {
+						continue // (two roots)
+					}
+					c07Case(c, c07Replay{Kind: "c07", Depth: tr.d, Names: tr.n, Route: base, Extra: extra, Exts: []string{".go"}, TargetForm: form})
+				}
+			}
+		}
+	}
+	// the size sweep (enum/size.go): one hostile name at the place a size threshold would make special — the deepest node
+	// of a chain of every depth, the row that returns after it, the child at an edge position of a parent of every width
+	// and the grandchild below it — in an otherwise valid tree: rejected, nothing created, nothing outside touched
+	sweepBase := props["C07"]
+	props["C07"] = func(c *rep.Ctx) {
+		sweepBase(c)
+		upTo, far, deepTo, deepFar := 140, 1030, 130, 260 // (a jail per case)
+		if c.Thorough() {
+			upTo, far, deepTo, deepFar = 600, 2100, 300, 520
+		}
+		c.Bound("size_sweep_width_every_integer_up_to", fmt.Sprint(upTo))
+		c.Bound("size_sweep_depth_every_integer_up_to", fmt.Sprint(deepTo))
+		c.Bound("size_sweep_depth_power_of_two_neighbours_up_to", fmt.Sprint(deepFar))
+		hostile := []string{"a/b", "..", "../../y", "."}
+		perSize := map[string]int{}
+		sweep := func(sh enum.SizeShape) {
+			k := fmt.Sprint(sh.Tag[:4], sh.Size)
+			if perSize[k]++; perSize[k] > 10 {
+				return
+			}
+			if !c.Take() || c.Expired() {
+				return
+			}
+			// candidates: the deepest row, the last row, the row named "g" / "again" / "back"
+			cand := map[int]bool{len(sh.D) - 1: true}
+			deepest := 0
+			for i, lv := range sh.D {
+				if lv >= sh.D[deepest] {
+					deepest = i
+				}
+				if sh.Names[i] == "g" || sh.Names[i] == "again" || sh.Names[i] == "back" {
+					cand[i] = true
+				}
+			}
+			cand[deepest] = true
+			n := 0
+			for i := range sh.D {
+				if !cand[i] || sh.D[i] == 1 {
+					continue
+				}
+				names := append([]string{}, sh.Names...)
+				names[i] = hostile[(sh.Size+n)%len(hostile)]
+				n++
+				c.StateN(1)
+				c.Nontrivial()
+				c.Inc("size_sweep_cases")
+				roots := 0
+				for _, x := range sh.D {
+					if x == 1 {
+						roots++
+					}
+				}
+				rts := []string{"md", "md-dry-output", "root", "root-dry", "md-dry-mkdir"}
+				if roots != 1 {
+					rts = []string{"md", "md-dry-output", "md-dry-mkdir"}
+				}
+				c07Case(c, c07Replay{Kind: "c07", Depth: sh.D, Names: names, Route: rts[(sh.Size+n)%len(rts)]})
+				if (sh.Size+n)%4 == 0 && roots == 1 {
+					c07Case(c, c07Replay{Kind: "c07", Depth: sh.D, Names: names, Route: "md", Extra: "massive"})
+					// two hostile names under different parents at once (the second, third ... failure of one call)
+					two := append([]string{}, names...)
+					for k := 1; k < len(two); k++ {
+						if k != i && sh.D[k] == sh.D[1] && k > 2 {
+							two[k] = hostile[(sh.Size+k)%len(hostile)]
+							break
+						}
+					}
+					c07Case(c, c07Replay{Kind: "c07", Depth: sh.D, Names: two, Route: []string{"md", "root", "md-dry-mkdir"}[sh.Size%3], Extra: "massive"})
+				}
+			}
+		}
+		enum.DeepShapes(enum.Sizes(deepTo, deepFar), sweep)
+		enum.WideShapes(enum.Sizes(upTo, far), sweep)
 	}
 	replayers["c07"] = func(raw json.RawMessage) bool {
 		var r c07Replay
